@@ -884,6 +884,9 @@ class Cluster(object):
             q.append({'cmd': self.abs_cmd(cmd)['id'], 'sz': len(cmd), 'cb': self._abs_cb(cb, sn)})
         wc = []
         for idx, lst in sorted(g('commandsWaitingCommit').items()):
+            # (whatever container the waiters of one index are kept in: a list of (term, callback), or a single pair)
+            if isinstance(lst, tuple) and len(lst) == 2 and not isinstance(lst[0], (tuple, list)):
+                lst = [lst]
             for term, cb in lst:
                 wc.append({'idx': int(idx), 'term': int(term), 'cb': self._abs_cb(cb, sn)})
         wr = [{'rid': int(rid), 'cb': self._abs_cb(cb)} for rid, cb in sorted(g('commandsWaitingReply').items())]
